@@ -3041,6 +3041,14 @@ class ReturnControlToECUResponse(
             bytes([InputOutputControlParameter.returnControlToECU]) + control_states,
         )
 
+    @classmethod
+    def _from_pdu(cls, pdu: bytes) -> Self:
+        # The constructor adds the inputOutputControlParameter itself
+        if pdu[3] != InputOutputControlParameter.returnControlToECU:
+            raise ValueError("The inputOutputControlParameter is not returnControlToECU")
+
+        return cls(from_bytes(pdu[1:3]), pdu[4:])
+
     def matches(self, request: UDSRequest) -> bool:
         return super().matches(request) and isinstance(request, ReturnControlToECURequest)
 
@@ -3088,6 +3096,14 @@ class ResetToDefaultResponse(
             data_identifier,
             bytes([InputOutputControlParameter.resetToDefault]) + control_states,
         )
+
+    @classmethod
+    def _from_pdu(cls, pdu: bytes) -> Self:
+        # The constructor adds the inputOutputControlParameter itself
+        if pdu[3] != InputOutputControlParameter.resetToDefault:
+            raise ValueError("The inputOutputControlParameter is not resetToDefault")
+
+        return cls(from_bytes(pdu[1:3]), pdu[4:])
 
     def matches(self, request: UDSRequest) -> bool:
         return super().matches(request) and isinstance(request, ResetToDefaultRequest)
@@ -3137,6 +3153,14 @@ class FreezeCurrentStateResponse(
             bytes([InputOutputControlParameter.freezeCurrentState]) + control_states,
         )
 
+    @classmethod
+    def _from_pdu(cls, pdu: bytes) -> Self:
+        # The constructor adds the inputOutputControlParameter itself
+        if pdu[3] != InputOutputControlParameter.freezeCurrentState:
+            raise ValueError("The inputOutputControlParameter is not freezeCurrentState")
+
+        return cls(from_bytes(pdu[1:3]), pdu[4:])
+
     def matches(self, request: UDSRequest) -> bool:
         return super().matches(request) and isinstance(request, FreezeCurrentStateRequest)
 
@@ -3183,6 +3207,14 @@ class ShortTermAdjustmentResponse(
             data_identifier,
             bytes([InputOutputControlParameter.shortTermAdjustment]) + control_states,
         )
+
+    @classmethod
+    def _from_pdu(cls, pdu: bytes) -> Self:
+        # The constructor adds the inputOutputControlParameter itself
+        if pdu[3] != InputOutputControlParameter.shortTermAdjustment:
+            raise ValueError("The inputOutputControlParameter is not shortTermAdjustment")
+
+        return cls(from_bytes(pdu[1:3]), pdu[4:])
 
 
 class ShortTermAdjustmentRequest(
